@@ -7,6 +7,8 @@ REAL domain, real code from LLVM IR, symbolic positions/velocities/masses/G:
     mass uniformly;
   * the diagnostics reb_simulation_energy / angular_momentum / com return the textbook sums for every N_active and
     testparticle_type;
+  * TRACE and MERCURIUS keep the centre of mass in a side variable: one real step with HAVOC sub-steps and a nondeterministic
+    accept/reject verdict moves the inertial centre of mass by exactly dt * V_com and returns the initial total momentum;
   * reb_collision_resolve_merge conserves mass, momentum and the centre of mass, and (track_energy_offset) books exactly
     the kinetic + pair potential energy removed."""
 import sys, os, time, ctypes, itertools
@@ -203,10 +205,90 @@ def run_merge(u):
         ob.witness("path", assum, axioms=dom.axioms)
     return rep
 
+def run_comframe(u):
+    """hybrid integrators keep the centre of mass in a side variable (TRACE: ri_trace.com_pos/com_vel; MERCURIUS: DH slot 0) that
+    only the com step advances.  One real step is executed with the Kepler / interaction / jump / encounter sub-steps replaced by
+    HAVOC stubs (arbitrary new democratic-heliocentric coordinates for every non-central particle) and TRACE's post-step encounter
+    check replaced by a nondeterministic verdict, so that both the accepted and the rejected-and-redone step are explored: for every
+    behaviour of the sub-steps the inertial centre of mass must have moved by exactly dt * V_com."""
+    rep = Report(); integ, N = u['integ'], u['N']
+    label = "%s centre-of-mass bookkeeping N=%d%s " % (integ, N, (' current_C=1 (PARTIAL_BS)' if u.get('peri') else ''))
+    L = build.layout()
+    def run(ctx):
+        dom = Real(); I, sim, V, G = mk(dom, ctx, N)
+        sim.set('integrator', L.enumerators['REB_INTEGRATOR_' + integ]); dt = dom.fresh('dt'); sim.set('dt', dt)
+        cnt = [0]
+        def havoc(I_, r, *a):
+            cnt[0] += 1
+            for i in range(1, N):
+                for c in ('x', 'y', 'z', 'vx', 'vy', 'vz'): sim.particle(i).set(c, dom.fresh('h%d_%s%d' % (cnt[0], c, i)))
+            return None
+        verdicts = []
+        if integ == 'TRACE':
+            for f in ('interaction_step', 'jump_step', 'kepler_step'): I.stubs['@reb_integrator_trace_' + f] = havoc
+            def pre(I_, r):
+                if u.get('peri'): sim.set('ri_trace.current_C', 1)
+                return None
+            I.stubs['@reb_integrator_trace_pre_ts_check'] = pre
+            if u.get('peri'): sim.set('ri_trace.peri_mode', L.enumerators['REB_TRACE_PERI_PARTIAL_BS'])
+            def post(I_, r):
+                v = dom.fresh('new_encounter_found'); verdicts.append(v); return v
+            I.stubs['@reb_integrator_trace_post_ts_check'] = post
+        else:
+            for f in ('interaction_step', 'jump_step', 'kepler_step'): I.stubs['@reb_integrator_mercurius_' + f] = havoc
+            I.stubs['@reb_mercurius_encounter_predict'] = lambda I_, r: None
+            I.stubs['@reb_mercurius_encounter_step'] = havoc
+            I.stubs['@reb_integrator_mercurius_calculate_dcrit_for_particle'] = lambda I_, r, i: dom.fresh('dcrit')
+        I.stubs['@reb_simulation_update_acceleration'] = lambda I_, r: None; I.stubs['@reb_calculate_acceleration'] = lambda I_, r: None
+        I.call('@reb_simulation_step', [sim.ptr]); I.call('@reb_simulation_synchronize', [sim.ptr])
+        return I, dom, sim, V, G, dt, verdicts
+    ex = Explorer(run, max_paths=8, timeout_ms=5000); ex.explore()
+    rep.queries += ex.nqueries; rep.solver_time += ex.qtime
+    for ctx, (I, dom, sim, V, G, dt, verdicts) in ex.results:
+        rep.paths += 1; rep.add_interp(I)
+        M = [V[(i, 'm')] for i in range(N)]
+        rejected = bool(verdicts) and any(d for d in ctx.decisions)
+        ob = Obligations(rep, Prover(t_inproc_ms=20000, use_external=True, t_ext_s=60), label + "path%d " % rep.paths)
+        assum = list(ctx.pc) + [m > 0 for m in M] + [b != 0 for b in dom.divs]
+        def on_sat(model):
+            ok, detail = native_comframe(integ)
+            return ok, 'C04:comframe:%s' % integ, detail, dict(kind='comframe', integ=integ)
+        for k, c in enumerate('xyz'):
+            c0 = sum((M[i] * V[(i, c)] for i in range(N)), z3.RealVal(0)); p0 = sum((M[i] * V[(i, 'v' + c)] for i in range(N)), z3.RealVal(0))
+            c1 = sum((M[i] * dom.z(sim.particle(i).get(c)) for i in range(N)), z3.RealVal(0)); p1 = sum((M[i] * dom.z(sim.particle(i).get('v' + c)) for i in range(N)), z3.RealVal(0))
+            ob.prove("centre of mass %s moves uniformly whatever the sub-steps do: M X(t+dt) == M X(t) + P dt" % c, c1 == c0 + p0 * dt, assum, axioms=dom.axioms, on_sat=on_sat, domain='REAL')
+            ob.prove("total momentum %s is what the step started with, whatever the sub-steps do" % c, p1 == p0, assum, axioms=dom.axioms, on_sat=on_sat, domain='REAL')
+        ob.witness("path", assum, axioms=dom.axioms)
+    bad, detail = native_comframe(integ); rep.replays += 1
+    if bad: rep.violations.append(dict(key='C04:comframe:%s' % integ, what=detail, replay=dict(kind='comframe', integ=integ), obligation=label + 'native twin'))
+    return rep
+
+_nat2 = None
+def native_comframe(integ):
+    """native: a drifting three-body system with repeated planet-planet encounters (TRACE rejects and redoes steps); the centre of
+    mass must stay on its straight line to rounding error"""
+    global _nat2
+    if _nat2 is None: _nat2 = Native()
+    N_ = _nat2; L = N_.L; ns = N_.create(); vcom = 0.5
+    try:
+        ns.add(m=1.0, vx=vcom); ns.add(m=1e-3, x=1.0, vy=1.0, vx=vcom); ns.add(m=1e-3, x=1.05, vy=-0.97, vx=vcom)
+        ns.set('integrator', L.enumerators['REB_INTEGRATOR_' + integ]); ns.set('dt', 0.02)
+        M = sum(ns.particle(i).get('m') for i in range(3))
+        com0 = sum(ns.particle(i).get('m') * ns.particle(i).get('x') for i in range(3)) / M
+        worst = 0.0
+        for k in range(400):
+            ns.call('reb_simulation_step'); ns.call('reb_simulation_synchronize')
+            com = sum(ns.particle(i).get('m') * ns.particle(i).get('x') for i in range(3)) / M
+            worst = max(worst, abs(com - (com0 + vcom * ns.get('t'))))
+        return worst > 1e-9, "native %s, 400 steps of a drifting (v_com=0.5) star + two counter-rotating planets with close encounters: centre of mass leaves its straight line by %.3g" % (integ, worst)
+    finally:
+        ns.free()
+
 def worker(u):
-    return {'kick': run_kick, 'leapfrog': run_leapfrog, 'diag': run_diag, 'merge': run_merge}[u['what']](u)
+    return {'kick': run_kick, 'leapfrog': run_leapfrog, 'diag': run_diag, 'merge': run_merge, 'comframe': run_comframe}[u['what']](u)
 
 def replay(data):
+    if data.get('kind') == 'comframe': return native_comframe(data['integ'])
     return native_kick(data['unit'], data['vals'])
 
 def main():
@@ -221,6 +303,8 @@ def main():
         for na in range(0, N + 1):
             for tpt in (0, 1): us.append(dict(what='diag', N=N, na=na, tpt=tpt))
     for N in ((2,) if tier == 'quick' else (2, 3)): us.append(dict(what='leapfrog', N=N, ext=True))
+    for N in ((3,) if tier == 'quick' else (2, 3, 4)):
+        us.append(dict(what='comframe', integ='TRACE', N=N)); us.append(dict(what='comframe', integ='TRACE', N=N, peri=True)); us.append(dict(what='comframe', integ='MERCURIUS', N=N))
     for tr in (0,):
         for pair in ((0, 1), (1, 0), (1, 2), (2, 0)): us.append(dict(what='merge', track=tr, pair=pair, ext=(tier == 'thorough')))
     rep = run_units(us, worker)
